@@ -106,12 +106,14 @@ func c19Check(env *core.Env, cc core.Case) core.Verdict {
 		// the operand stored in the rules file is out of date, and for some inputs it holds many multi-byte characters or
 		// bytes that are not UTF-8 (compare prints both expressions side by side)
 		stored := []string{"old", "old", strings.Repeat("\u00e4\u00f6", 40), strings.Repeat("\u65e5\u672c\u8a9e", 30), "caf\xe9" + strings.Repeat("\xff\xfe", 20), strings.Repeat("x", 49) + "\u00e9\u00e9" + strings.Repeat("y", 70)}[len(c.Input)%6]
-		rc := &rulesCase{Rules: []ruleSpec{{ID: "932100", Chain: []ruleOp{{"@rx", stored}}}}, Sources: map[string]string{"932100": c.Input}}
+		rc := &rulesCase{Rules: []ruleSpec{{ID: "932100", Chain: []ruleOp{{"@rx", stored}}}, {ID: "932110", Chain: []ruleOp{{"@pm", "a b"}}}}, Sources: map[string]string{"932100": c.Input, "932110": c.Input}}
 		for k, s := range rc.tree() {
 			tree[k] = s
 		}
 		invs = []inv{{[]string{"regex", "generate", "932100"}, nil}, {[]string{"regex", "compare", "932100"}, nil}, {[]string{"regex", "format", "--check", "932100"}, nil},
-			{[]string{"regex", "update", "932100"}, nil}, {[]string{"regex", "format", "932100"}, nil}, {[]string{"regex", "generate", "932100"}, nil}}
+			{[]string{"regex", "update", "932100"}, nil}, {[]string{"regex", "format", "932100"}, nil}, {[]string{"regex", "generate", "932100"}, nil},
+			// a rule whose operator is not @rx: a diagnostic, not a crash
+			{[]string{"regex", "update", "932110"}, nil}, {[]string{"regex", "compare", "932110"}, nil}}
 		if len(c.Input)%5 == 1 {
 			// a second rules file that stops in the middle of a chained rule (its last line is the chained SecRule line, no
 			// final newline), addressed through a chain offset
